@@ -102,6 +102,17 @@ def check_day(ctx, day, tod):
             rej('us-string %r read as uk' % us_p, lambda: dt(us_p))
             rej('uk-string %r read as us' % uk_u, lambda: dt(uk_u, dialect='us'))
             rej('us-string %r read as uk' % us_u, lambda: dt(us_u))
+    # day-month / month-day strings that carry a time of day, to the second and to the microsecond: the same instant, the same rejection of the other dialect
+    for sep in (SEPS[(d + m) % len(SEPS)],):
+        if sep == ' ':
+            sep = '-'
+        for tail_, exp_ in ((' %02d:%02d:%02d' % (h, mi, s), Ts), (' %02d:%02d:%02d.%06d' % (h, mi, s, us), T), (' %02d:%02d' % (h, mi), Ts.replace(second=0))):
+            uk_t = '%02d%s%02d%s%04d%s' % (d, sep, m, sep, y, tail_); us_t = '%02d%s%02d%s%04d%s' % (m, sep, d, sep, y, tail_)
+            eq('uk %r' % uk_t, lambda: dt(uk_t), exp_)
+            eq('us %r' % us_t, lambda: dt(us_t, dialect='us'), exp_)
+            if d > 12:
+                rej('uk-string %r read as us' % uk_t, lambda: dt(uk_t, dialect='us'))
+                rej('us-string %r read as uk' % us_t, lambda: dt(us_t))
     for fmt in ('%d %B %Y', '%d %b %Y', '%B %d %Y', '%d-%b-%Y'):
         sname = D.strftime(fmt)
         eq('month name %r' % sname, lambda: dt(sname), D)
